@@ -37,6 +37,8 @@ func runC04(r *an.Run) {
 	c04ImplicitDots(r)
 	okDisciplineAll(r, "R10-ok-discipline-and-failed-data", 17)
 	memoDependencies(r, "R11-failure-memo-sees-every-binding")
+	c04AssociationByPosition(r)
+	matcherNumericConditions(r, "R13-length-decisions-on-measured-lengths")
 }
 
 const tokIDENT = 4
